@@ -257,15 +257,22 @@ def run_property(prop, tier, seed):
     res = Results(prop, tier)
     res.repo = REPO
     res.facts_dir = fdir
-    try:
-        mod.run(facts, res)
-    except mirlib.AnchorLost as e:
-        res.lost(e.rule, str(e))
-    if tier == 'thorough' and hasattr(mod, 'run_thorough'):
+    def guarded(fn):
+        # fail closed: a rule that cannot digest the current tree (an anchor is gone, or the code has taken a shape the rule
+        # never met and it trips over it) reports that as a lost anchor - exit 1 with a diagnosis, never a bare crash
         try:
-            mod.run_thorough(facts, res)
+            fn(facts, res)
         except mirlib.AnchorLost as e:
             res.lost(e.rule, str(e))
+        except Exception as e:        # noqa
+            import traceback
+            tb = traceback.extract_tb(e.__traceback__)
+            where = next((f for f in reversed(tb) if os.path.basename(f.filename).startswith('c') and f.filename.endswith('.py')), tb[-1])
+            res.lost('internal', 'the checker could not analyse this tree: %s: %s at %s:%s (%s) - the code at the rule\'s anchor has a shape the rule does not understand'
+                     % (type(e).__name__, str(e)[:120], os.path.basename(where.filename), where.lineno, where.name))
+    guarded(mod.run)
+    if tier == 'thorough' and hasattr(mod, 'run_thorough'):
+        guarded(mod.run_thorough)
     if tier == 'thorough' and not os.environ.get('VERIF_SELFTEST'):
         # liveness controls (DESIGN.md §7): up to three of this property's own mutants must be reported on a
         # scratch copy of THIS tree; a control whose edit no longer applies is skipped, never failed
